@@ -30,6 +30,8 @@ def run(prog, chk):
     r133(prog, chk)
     r134(prog, chk)
     r135(prog, chk, "R13.5")
+    from .c15 import check_single_decomposer
+    check_single_decomposer(prog, chk, "R13.6")
 
 
 # ----------------------------------------------------------------------------- R13.1
@@ -123,7 +125,11 @@ def r132(prog, chk):
         f = ci.methods.get("filter")
         need(f is not None, f"{cname}.filter vanished")
         dcs = [c for c in A.body_nodes(f.node) if isinstance(c, ast.Call) and prog.is_call_to(f, c, "ufo2ft.util.decomposeCompositeGlyph")]
-        need(dcs, f"cannot interpret {f.short}: decomposeCompositeGlyph call not found")
+        if not dcs:
+            chk.ob("R13.2", f"{f.short}|references to skipped glyphs are inlined through util.decomposeCompositeGlyph", False, where(f),
+                   message=f"{f.short} no longer inlines references to skipped glyphs through util.decomposeCompositeGlyph(include=<skip set>, decomposeNested=False): flipped "
+                           f"components, nested skipped glyphs and missing components are handled by other code")
+            continue
         for c in dcs:
             inc = A.kwarg(c, "include")
             dn = A.kwarg(c, "decomposeNested")
